@@ -102,8 +102,13 @@ impl Actor for T {
         let out = self.cfg.run_script.get(self.ri).copied().unwrap_or("false");
         self.ri += 1;
         let inst = self.ri as u64;
-        emit(self.cfg.run, json!({"e": "RunPoll", "a": self.cfg.name, "inst": inst}));
-        emit(self.cfg.run, json!({"e": "RunEnd", "a": self.cfg.name, "inst": inst, "out": out}));
+        // (a change that makes the loop call on_run without end must not flood the trace: the first invocations tell the story)
+        if inst <= 24 {
+            emit(self.cfg.run, json!({"e": "RunPoll", "a": self.cfg.name, "inst": inst}));
+            emit(self.cfg.run, json!({"e": "RunEnd", "a": self.cfg.name, "inst": inst, "out": out}));
+        } else {
+            tokio::task::yield_now().await;
+        }
         match out {
             "true" => {
                 self.jl.push("run".into());
